@@ -48,7 +48,7 @@ def value(r):
 
 
 def new_object(r, npool):
-    k = r.below(12)
+    k = r.below(15)
     props = ", ".join("%s: %s" % (p, value(r)) for p in r.sample(["a", "b", "c", "x", "m"], r.below(4)))
     if k == 0:
         return "{%s}" % props
@@ -72,6 +72,15 @@ def new_object(r, npool):
         return "(function(){ return arguments; })(1, 2)"
     if k == 10:
         return "new Proxy({a: 'pa', b: 'pb'}, {})"
+    # receivers whose shape is unique (dictionary mode) rather than a node of the shared transition tree:
+    # an object that went through more than 1024 transitions, a built-in namespace, a built-in prototype
+    if k == 11:
+        return "(function(){ var o = {}; for (var i = 0; i < 1100; i++) o['t' + i] = i; for (var i = 0; i < 1100; i++) delete o['t' + i]; %s return o; })()" % \
+            " ".join("o.%s = %s;" % (p, value(r)) for p in r.shuffle(["a", "b", "c", "x"])[:r.below(5)])
+    if k == 12:
+        return "Math"
+    if k == 13:
+        return "Array.prototype"
     return "{%s}" % props
 
 
